@@ -11,8 +11,8 @@ for f in d['findings']:
     dst = os.path.join(V, 'seeded', name); os.makedirs(dst, exist_ok=True)
     if os.path.exists(os.path.join(dst, 'meta.json')) and 'rebased' in json.load(open(os.path.join(dst, 'meta.json'))):
         print(name, '(rebased by hand: kept)'); continue
-    diff = subprocess.run(['git', '-C', '/repo', 'diff', c, c + '^'], capture_output=True, text=True).stdout
-    open(os.path.join(dst, 'patch.diff'), 'w').write(diff)
+    diff = subprocess.run(['git', '-C', '/repo', 'diff', '--binary', c, c + '^'], capture_output=True).stdout      # bytes: some sources have CRLF line ends
+    open(os.path.join(dst, 'patch.diff'), 'wb').write(diff)
     mp = os.path.join(dst, 'meta.json'); old = json.load(open(mp)) if os.path.exists(mp) else {}
     meta = dict(name=name, breaks_property=f['property'], needs_to_manifest=f['what'], produced_by='reverse of fix commit %s (the genuine defect the check found on the original tree)' % c,
                 confirmed='the defect was reproduced by the check on the original tree before the fix (see known_findings.json)', detected_by=old.get('detected_by', []))
